@@ -73,11 +73,15 @@ impl<T: Qcow2IoOps> Qcow2Dev<T> {
         // drop there, otherwise a crash in between leaves an L2 entry that
         // points to a cluster the refcounts call free.
         let mut released = Vec::new();
+        let mut unmapped = Vec::new();
         let mut res = Ok(());
         let mut guest = start;
         while guest < stop {
             match self.__discard_one_cluster(guest).await {
-                Ok(Some(allocation)) => released.push(allocation),
+                Ok(Some(allocation)) => {
+                    released.push(allocation);
+                    unmapped.push(guest);
+                }
                 Ok(None) => {}
                 Err(e) => {
                     res = Err(e);
@@ -97,6 +101,22 @@ impl<T: Qcow2IoOps> Qcow2Dev<T> {
         {
             let l1 = self.l1table.read().await;
             self.flush_mapping(&l1).await?;
+        }
+
+        // A slice is marked clean when its write-back starts. If someone
+        // else is writing one of our slices right now, flush_mapping() found
+        // it clean and the fsync below would not cover that write. The
+        // writer keeps the slice read-locked until the write is done: wait
+        // for that.
+        let mut last_key = None;
+        for guest in unmapped {
+            let split = SplitGuestOffset(guest);
+            let key = split.l2_slice_key(info);
+            if last_key != Some(key) {
+                last_key = Some(key);
+                let l2_handle = self.get_l2_slice(&split).await?;
+                drop(l2_handle.value().write().await);
+            }
         }
         self.call_fsync(0, usize::MAX, 0).await?;
 
